@@ -305,7 +305,7 @@ func c12Spaces(c *fw.Ctx) {
 				}
 			}
 		})
-	c.Space("stream/runt-frames", "a frame whose length prefix announces 0..11 octets (shorter than a DNS header) followed by a good frame of 12 or 300 octets on the same stream, the runt frame cut at every position: the first read reports an error (Conn.Read, which does not look at the content, returns the runt octets), and the NEXT read on the same connection returns the good message intact — the runt's octets were consumed with their frame; through ReadMsgHeader(nil), ReadMsgHeader(&hdr), Conn.Read, Conn.ReadMsg and Transfer.ReadMsg; non-trivial: all", true,
+	c.Space("stream/runt-frames", "a frame whose length prefix announces 0..11 octets (shorter than a DNS header) followed by a good frame of 12 or 300 octets on the same stream, the runt frame cut at every position: the first read reports an error or hands over exactly the runt octets (Conn.Read, which does not look at the content, returns them; the decoding entry points must fail), and the NEXT read on the same connection returns the good message intact — the runt's octets were consumed with their frame; through ReadMsgHeader(nil), ReadMsgHeader(&hdr), Conn.Read, Conn.ReadMsg and Transfer.ReadMsg; non-trivial: all", true,
 		func(emit func(func(*fw.R))) {
 			for rs := 0; rs <= 11; rs++ {
 				for _, s2 := range []int{12, 300} {
@@ -364,7 +364,9 @@ func c12Spaces(c *fw.Ctx) {
 									if err != nil || !bytes.Equal(got, runt) {
 										r.Fail("stream-runt/entry-2", "Conn.Read of a %d-octet frame cut at %v: %d octets, err %v", rs, cuts, len(got), err)
 									}
-								} else if err == nil {
+								} else if err == nil && (how >= 3 || !bytes.Equal(got, runt)) {
+									// ReadMsgHeader may hand the runt frame's octets to its caller or refuse them (it refuses today);
+									// the entry points that decode cannot succeed on fewer than 12 octets
 									r.Fail(fmt.Sprintf("stream-runt/accepted/entry-%d", how), "a frame of %d octets (shorter than a header) was returned as a message of %d octets without error", rs, len(got))
 								}
 								got, err = read()
